@@ -554,11 +554,14 @@ def gen_filter_case(rng, i):
         u = gen_uri(rng, scheme='rtsp', plain=rng.random() < 0.7, rest=rng.choice(['/live', '/out', '']), host=rng.choice(['srv:8554', 'media.example:8554']))
         secrets.append(dict(pw=u['pw'], how='output', idx=0, uri=u['text'], user=u['user']))
         if rng.random() < 0.5:
-            outs = u['text'] + rng.choice(['!fps=10', '!fps=10;main', ''])
+            # (an RTSP output can not be written in segments: '!segtime=' there is an error, reported like every other one)
+            outs = u['text'] + rng.choice(['!fps=10', '!fps=10;main', '', '!segtime=1', '!fps=10!segtime=0.5;main'])
         else:
             outs = [{'__k': rng.choice(['dict', 'adict']), 'items': [['output', u['text']], ['topic', 'main'],
                                                                      ['options', D('dict', fps=10)]]}]
         items = [['id', 'o%d' % i], ['sources', 'tcp://localhost:5550'], ['outputs', outs]]
+        if rng.random() < 0.15:
+            items.append(['segtime', rng.choice([1, 0.5, 10])])       # filter-wide segment length: reaches the RTSP output as well
         if rng.random() < 0.3:
             opt_secret(items)
         return dict(cls='VideoOut', config={'__k': top_kind, 'items': items}, secrets=secrets, note='VideoOut')
